@@ -91,6 +91,15 @@ func scenarioC19(r *Run) {
 		if un != "" {
 			doc["sliceQos"].(map[string]any)["bitrateUnit"] = un
 		}
+		if r.Ch.Choose(8, "large-document") == 1 {
+			// a slice with many UE pools: a well-formed document of several kilobytes
+			var pools []map[string]any
+			for i := 0; i < 60+r.Ch.Choose(900, "n-ue-pools"); i++ {
+				pools = append(pools, map[string]any{"uePoolId": fmt.Sprintf("pool-%04d", i), "dnn": "internet"})
+			}
+			doc["ueResourceInfo"] = pools
+			r.Probe("well-formed-document-of-several-kilobytes")
+		}
 		body, _ := json.Marshal(doc)
 		switch r.Ch.Choose(10, "bodyclass") {
 		case 9:
@@ -291,7 +300,15 @@ func scenarioC19UP4(r *Run) {
 		body := []byte(fmt.Sprintf(`{"sliceName":"s1","sliceQos":{"uplinkMbr":%d,"downlinkMbr":%d,"bitrateUnit":"Kbps","uplinkBurstSize":%d,"downlinkBurstSize":%d}}`, ul, dl, 1+r.Ch.Choose(1<<20, "b1"), 1+r.Ch.Choose(1<<20, "b2")))
 		req := &vsimenv.HTTPReq{Method: []string{"POST", "PUT"}[r.Ch.Choose(2, "method")], Path: "/v1/config/network-slices", Body: body}
 		before := len(sw.WriteLog)
-		slowWrite := when == 1 && r.Ch.Choose(4, "slow-slice-write") == 1
+		failWrite := when == 1 && r.Ch.Choose(6, "slice-write-refused") == 1
+		if failWrite {
+			// the switch refuses the slice-meter Write: what the property says about the
+			// answer then is not much - but it is ONE answer
+			sw.FailKind = []string{"transport", "update", "bare-unknown"}[r.Ch.Choose(3, "slice-fail-kind")]
+			sw.Faults.FailNth = sw.Writes + 1
+			r.Fault("slice-meter-write-refused")
+		}
+		slowWrite := when == 1 && !failWrite && r.Ch.Choose(4, "slow-slice-write") == 1
 		if slowWrite {
 			// the switch takes seconds over this Write (it is applied, and answered, late):
 			// the client is answered when the datapath has answered, with what really happened
@@ -324,6 +341,14 @@ func scenarioC19UP4(r *Run) {
 		if req.WriteHeaders != 1 {
 			r.Violate("C19", fmt.Sprintf("writeheader-count:up4:%d", req.WriteHeaders), "WriteHeader called %d times", req.WriteHeaders)
 			return
+		}
+		if failWrite {
+			hit := sw.Faults.FailNth != 0 && sw.Writes >= sw.Faults.FailNth
+			sw.Faults.FailNth = 0
+			r.Skel(fmt.Sprintf("up4:slice-write-refused:%v:%d", hit, req.Status))
+			if hit {
+				continue // one answer was given; status and datapath contents after a refused write are not judged
+			}
 		}
 		if req.Status == 201 {
 			r.Accepted++
